@@ -127,6 +127,9 @@ def check_C03(o, tier):
     o.add_audit(core.audit("C03", tier == "thorough"))
     http_check(o, tier, "C03", ["tags", "mix"], make_view(ops=("TAGS", "MGET", "MHEAD", "MDEL", "MPUT"), fields=("code", "dcd", "body", "link")),
                RULE % "tags, mix", monitors_prefix="C03.")
+    # tags on documents that are byte-identical to a referrers response of the repository (twins), tags of artifacts
+    http_check(o, tier, "C03", ["refs"], make_view(ops=("TAGS", "MGET", "MHEAD", "MDEL", "MPUT"), fields=("code", "dcd", "body", "link")),
+               RULE % "tags, mix, refs", monitors_prefix="C03.", n_quick=150, n_thorough=4000)
 
 
 def check_C04(o, tier):
